@@ -946,8 +946,105 @@ def run_frames(c, ctx):
     ctx.nontrivial(hasvar)
 
 
+# ---------------------------------------------------------------------------------------
+# Operands survive the operation: rotating / scaling / copying a Vec3d, Particle or Simulation returns a new
+# object and leaves the operand bitwise unchanged, so that the same operand can be reused in a composition.
+
+operand_case = st.fixed_dictionaries({
+    "q1": st.tuples(S.floats(-1, 1), S.floats(-1, 1), S.floats(-1, 1), S.floats(0.1, 1)),
+    "q2": st.tuples(S.floats(-1, 1), S.floats(-1, 1), S.floats(0.1, 1), S.floats(-1, 1)),
+    "v": st.tuples(S.floats(-10, 10), S.floats(-10, 10), S.floats(0.5, 10)),
+    "kind": st.sampled_from(["Vec3d", "Vec3d_from_sim", "list", "tuple", "Vec3d_copy"]),
+})
+
+
+def _unit(q):
+    import math
+    n = math.sqrt(sum(x * x for x in q))
+    return [x / n for x in q]
+
+
+def run_operands(case, ctx):
+    import math
+    import rebound
+    from .. import rb
+    q1 = _unit(case["q1"])
+    q2 = _unit(case["q2"])
+    R1 = rebound.Rotation(ix=q1[0], iy=q1[1], iz=q1[2], r=q1[3])
+    R2 = rebound.Rotation(ix=q2[0], iy=q2[1], iz=q2[2], r=q2[3])
+    kind = case["kind"]
+    vals = list(case["v"])
+    if kind == "Vec3d":
+        v = rebound.Vec3d(vals)
+    elif kind == "Vec3d_copy":
+        v0 = rebound.Vec3d(vals)
+        v = rebound.Vec3d(v0)
+        v0_bits = [rb.dbits(c) for c in (v0.x, v0.y, v0.z)]
+    elif kind == "Vec3d_from_sim":
+        sim = rebound.Simulation()
+        sim.add(m=1.0)
+        sim.add(m=1e-3, x=vals[0], y=vals[1], z=vals[2], vx=0.1, vy=0.7, vz=-0.2)
+        v = sim.angular_momentum()
+        if not isinstance(v, rebound.Vec3d):
+            v = rebound.Vec3d(v)
+        vals = [v.x, v.y, v.z]
+    elif kind == "list":
+        v = list(vals)
+    else:
+        v = tuple(vals)
+
+    def bits(o):
+        return [rb.dbits(float(o[i])) for i in range(3)]
+    before = bits(v)
+    w = R1 * v
+    if bits(v) != before:
+        raise Violation("rotating a %s changed the operand itself: %r -> %r" % (kind, vals, [float(v[i]) for i in range(3)]), kind=kind)
+    # the result is a new object: editing it must not reach the operand
+    if hasattr(w, "x") and hasattr(v, "x"):
+        w2 = R1 * v
+        w2.x = 12345.0
+        if bits(v) != before:
+            raise Violation("the result of rotation * %s aliases its operand" % kind, kind=kind)
+    # composition with the SAME operand reused
+    a = R2 * (R1 * v)
+    b = (R2 * R1) * v
+    tol = 64 * 2.2e-16 * math.sqrt(sum(x * x for x in vals))
+    for i in range(3):
+        if not abs(float(a[i]) - float(b[i])) <= tol:
+            raise Violation("p*(q*v) != (p*q)*v when the same %s is reused: %r vs %r" % (kind, [float(a[i]) for i in range(3)], [float(b[i]) for i in range(3)]), kind=kind)
+    # inverse returns the (unchanged) operand
+    back = R1.inverse() * (R1 * v)
+    for i in range(3):
+        if not abs(float(back[i]) - vals[i]) <= tol:
+            raise Violation("q^-1*(q*v) != v for a reused %s: %r vs %r" % (kind, [float(back[i]) for i in range(3)], vals), kind=kind)
+    # angle between v and q*v equals the rotation angle's effect: |q*v - v| must match the independent formula
+    qv = R1 * v
+    ix, iy, iz, r = q1
+    # rotate with the quaternion formula v' = v + 2r(u x v) + 2 u x (u x v)
+    ux = (iy * vals[2] - iz * vals[1], iz * vals[0] - ix * vals[2], ix * vals[1] - iy * vals[0])
+    uux = (iy * ux[2] - iz * ux[1], iz * ux[0] - ix * ux[2], ix * ux[1] - iy * ux[0])
+    exp = [vals[i] + 2 * r * ux[i] + 2 * uux[i] for i in range(3)]
+    for i in range(3):
+        if not abs(float(qv[i]) - exp[i]) <= tol:
+            raise Violation("q*v differs from the quaternion rotation formula on the second use of the same %s" % kind, kind=kind)
+    if kind == "Vec3d_copy":
+        v.x = -777.0
+        if [rb.dbits(c) for c in (v0.x, v0.y, v0.z)] != v0_bits:
+            raise Violation("Vec3d(Vec3d) is not a copy: editing the copy changed the original")
+    # scalar operations leave the operand alone too
+    if hasattr(v, "x") and kind != "Vec3d_copy":
+        _ = v * 2.0
+        _ = v / 2.0
+        if bits(v) != before:
+            raise Violation("scalar multiplication/division changed its Vec3d operand")
+    ctx.cls(kind)
+    if kind.startswith("Vec3d"):
+        ctx.nontrivial()
+
+
 def subs(tier):
     return [
+        Sub("operands", run_operands, strategy=operand_case, quick=1500, thorough=30000, shards_quick=2, shards_thorough=8, journal=False),
         Sub("units_G", run_units_G, cases=all_triples, exhaustive=True, quick=1785, thorough=1785, shards_quick=4, shards_thorough=4),
         Sub("units_names", run_units_names, cases=all_names, exhaustive=True, quick=40, thorough=40, shards_quick=1, shards_thorough=1),
         Sub("units_convert", run_units_convert, strategy=convert_case(), quick=1500, thorough=40000, shards_quick=4, shards_thorough=16),
